@@ -36,6 +36,11 @@ Fixpoint idents_known (ids : list (str * expr)) (p2 p1 : option token) (ts : lis
       ok && idents_known ids p1 (Some t) rest
   end.
 
+(* serde_yaml looks through !tags wherever a typed value (struct, sequence, string, bool) is
+   expected; Value::as_mapping does the same *)
+Fixpoint untag (y : yaml) : yaml :=
+  match y with YTagged _ v => untag v | _ => y end.
+
 Definition cond_key : str := [99; 111; 110; 100; 105; 116; 105; 111; 110]%N. (* "condition" *)
 
 (* the entries of the detection mapping, in order *)
@@ -44,10 +49,10 @@ Fixpoint load_entries (kv : list (yaml * yaml)) (cond : option str)
   match kv with
   | [] => Ok (cond, ids)
   | (k, v) :: rest =>
-      match k with
+      match untag k with
       | YStr key =>
           if str_eqb key cond_key then
-            match v with
+            match untag v with
             | YStr s => load_entries rest (Some s) ids
             | _ => Err ERule
             end
@@ -59,7 +64,7 @@ Fixpoint load_entries (kv : list (yaml * yaml)) (cond : option str)
   end.
 
 Definition load_detection (y : yaml) : out detection :=
-  match y with
+  match untag y with
   | YMap kv =>
       do r <- load_entries kv None [];
       let '(cond, ids) := r in
@@ -95,9 +100,9 @@ Definition all_string_keys (kv : list (yaml * yaml)) : bool :=
 (* Rule::from_value on a mapping with string keys (other top-level shapes are outside
    the model, see DESIGN.md section 8) *)
 Definition load_rule (y : yaml) : out rule :=
-  match y with
+  match untag y with
   | YMap kv =>
-      do opt <- match ylookup key_optimised kv with
+      do opt <- match option_map untag (ylookup key_optimised kv) with
                 | None => Ok false
                 | Some (YBool b) => Ok b
                 | Some _ => Err ERule
@@ -106,8 +111,8 @@ Definition load_rule (y : yaml) : out rule :=
                 | Some d => load_detection d
                 | None => Err ERule
                 end;
-      do tp <- match ylookup key_tp kv with Some (YSeq l) => Ok l | _ => Err ERule end;
-      do tn <- match ylookup key_tn kv with Some (YSeq l) => Ok l | _ => Err ERule end;
+      do tp <- match option_map untag (ylookup key_tp kv) with Some (YSeq l) => Ok l | _ => Err ERule end;
+      do tn <- match option_map untag (ylookup key_tn kv) with Some (YSeq l) => Ok l | _ => Err ERule end;
       Ok {| r_optimised := opt; r_det := det; r_tp := tp; r_tn := tn |}
   | _ => Err ERule
   end.
@@ -119,10 +124,6 @@ Definition solve_rule3 (dt : detection) (d : docq) : out res3 :=
 Definition matches (r : rule) (d : doc) : out bool :=
   do x <- solve_rule3 (r_det r) (pure_doc d);
   Ok (match x with T => true | _ => false end).
-
-(* Value::as_mapping looks through tags *)
-Fixpoint untag (y : yaml) : yaml :=
-  match y with YTagged _ v => untag v | _ => y end.
 
 Definition example_doc (y : yaml) : option doc :=
   match untag y with
